@@ -366,6 +366,52 @@ func concurrentHealthy(idx int64, r *rand.Rand) {
 	rt.Distinct(fmt.Sprintf("chealthy|%+v|%d|%d", spec, n, per))
 }
 
+// exactSteps: fresh limits with smoothing exactly 1 (a legal value: "no smoothing") and a fixed queue allowance q, fed
+// healthy saturated samples from the first one on.  Gradient2 at a constant RTT and Gradient at any RTT not above its
+// baseline - 0 ns included, the smallest RTT there is - grow by exactly q per sample until the ceiling.
+func exactSteps(idx int64, r *rand.Rand) {
+	kind := []string{"gradient", "gradient2"}[r.IntN(2)]
+	spec := limgen.Gen(r, kind, limgen.Opts{Bounded: true})
+	spec.Smoothing, spec.QueueKind, spec.QueueArg = 1, "fixed", 2+r.IntN(5)
+	if spec.QueueArg > spec.Max {
+		spec.QueueArg = spec.Max
+	}
+	if spec.Initial > spec.Max {
+		spec.Initial = spec.Max
+	}
+	spec.ProbeInt = limit.ProbeDisabled
+	l := spec.New(nil, "c07")
+	rtt := 1 + r.Int64N(1<<uint(1+r.IntN(30)))
+	zero := kind == "gradient" && r.IntN(3) == 0
+	if zero {
+		rtt = 0
+		rt.Count("gradient_exact_step_runs_at_rtt_zero", 1)
+	}
+	for i := 0; i < 40; i++ {
+		before := l.EstimatedLimit()
+		l.OnSample(0, rtt, before+r.IntN(3), false)
+		after := l.EstimatedLimit()
+		rt.Count("exact_step_samples", 1)
+		want := before + spec.QueueArg
+		if want > spec.Max {
+			want = spec.Max
+		}
+		if want < before {
+			want = before
+		}
+		// Gradient2's long-term average of a constant can sit one ulp below the constant, which costs a fraction of a unit
+		ok := after == want
+		if kind == "gradient2" && want > before && (after == want-1 || after == want) {
+			ok = true
+		}
+		if !ok {
+			rt.Violation("C07/"+kind+"/healthy-sample-did-not-add-the-queue-allowance/no-smoothing", idx, rt.J{"spec": spec, "sample": i, "rtt": rtt, "before": before, "after": after, "want": want})
+			return
+		}
+	}
+	rt.Distinct(fmt.Sprintf("exact|%+v|%d", spec, rtt))
+}
+
 func TestCheck(t *testing.T) {
 	if limgen.LargeTables() {
 		rt.Count("shards_started_with_enlarged_lookup_tables", 1)
@@ -378,6 +424,8 @@ func TestCheck(t *testing.T) {
 			concurrentHealthy(idx, r)
 		case idx%10 == 9:
 			concurrentSaturated(idx, r)
+		case idx%20 == 7:
+			exactSteps(idx, r)
 		case idx%2 == 0:
 			appLimited(idx, r)
 		default:
